@@ -74,3 +74,22 @@ package sqlite
 //@   option nosafety
 //@   monitor allFields
 //@     before call strings.Join args parts, sep : assert sep == "\x00" && len(parts) == 7 && parts[0] == tuple.SplitObject(tk.GetObject()).0 && parts[1] == tuple.SplitObject(tk.GetObject()).1 && parts[2] == tk.GetRelation() && parts[3] == tuple.ToUserParts(tk.GetUser()).0 && parts[4] == tuple.ToUserParts(tk.GetUser()).1 && parts[5] == tuple.ToUserParts(tk.GetUser()).2
+
+// ------------------------------------------------------------------ C14: ListStores paging (Go half)
+// the continuation token is the id of the first row NOT returned and the next page asks for id >= token, so the
+// statement must be ordered by exactly that column and fetch one row more than the page; a token is returned only
+// together with a full page
+//@ func (*Datastore).ListStores(s, ctx, options) (res, token, err)
+//@   property C14
+//@   option nosafety
+//@   option defer_neutral
+//@   ensures @fullPageWithToken err == nil && token != "" ==> len(res) == options.Pagination.PageSize
+//@   ensures @queried err == nil ==> ran
+//@   monitor query
+//@     ghost ordered = false
+//@     ghost limited = false
+//@     ghost ran = false
+//@     after call (squirrel.SelectBuilder).OrderBy args _, cols : ordered = pre(len(cols) == 1 && cols[0] == "id")
+//@     after call (squirrel.SelectBuilder).Limit args _, n : limited = n == options.Pagination.PageSize + 1
+//@     before call (squirrel.SelectBuilder).QueryContext : assert ordered && (options.Pagination.PageSize > 0 ==> limited)
+//@     after call (squirrel.SelectBuilder).QueryContext : ran = true
